@@ -417,7 +417,14 @@ fn run_case(case: &Value) -> Vec<Value> {
         let got = json!({"opcode": o["opcode"], "pos": o["pos"], "len": o["len"], "contiguous": o["contiguous"],
                          "foff": o["foff"], "flags": o["flags"], "zc": o["zc"], "select": o["select"]});
         if want != got {
-            div.push(json!({"field": format!("request {i}"), "expected": want, "observed": o}));
+            // A request that carries the right bytes but not the settings made on the builder
+            // (offset, flags, zero-copy) is also a failure of "every builder setting takes effect".
+            let same_bytes = want["pos"] == got["pos"] && want["len"] == got["len"] && want["contiguous"] == got["contiguous"] && want["select"] == got["select"];
+            let mut d = json!({"field": format!("request {i}"), "expected": want, "observed": o});
+            if same_bytes {
+                d["also_tags"] = json!(["C13"]);
+            }
+            div.push(d);
             break;
         }
     }
